@@ -43,15 +43,24 @@ func (its *DatatypeManager) DeliverTransaction(wired iface.WiredDatatype) {
 			}
 			defer func() {
 				its.sema.Release(1)
-				if wired.NeedPush() {
-					its.ctx.L().Infof("deliver transaction after delivering")
-					its.DeliverTransaction(wired)
-				}
+				its.deliverPending()
 			}()
 			if err := its.sync(wired); err != nil {
 				// TODO: handle in ErrorHandler
 			}
 		}()
+	}
+}
+
+// deliverPending starts a delivery for every datatype that has operations to push. While a sync is running, a
+// local operation on any datatype of the client gives up on the semaphore, not only one on the datatype that is
+// being synced: whoever releases the semaphore has to look at all of them.
+func (its *DatatypeManager) deliverPending() {
+	for _, data := range its.dataMap {
+		if data.NeedPush() {
+			its.ctx.L().Infof("deliver transaction after delivering")
+			its.DeliverTransaction(data)
+		}
 	}
 }
 
@@ -121,9 +130,7 @@ func (its *DatatypeManager) syncIfNeedPull(data iface.WiredDatatype, sseq uint64
 	}
 	defer func() {
 		its.sema.Release(1)
-		if data.NeedPush() { // a local operation gave up on the semaphore meanwhile
-			its.DeliverTransaction(data)
-		}
+		its.deliverPending() // a local operation gave up on the semaphore meanwhile
 	}()
 	if data.NeedPull(sseq) { // the sync that held the semaphore may have pulled it already
 		its.ctx.L().Infof("need to sync after notification: %s (sseq:%d)", data.GetKey(), sseq)
